@@ -753,11 +753,27 @@ func (e *sched) get(st *sState, v ssa.Value) sVal {
 			}
 			if st.gcells != nil && x.Pkg != nil && len(e.frames) > 0 && x.Pkg == e.frames[0].Pkg {
 				id, ok := st.gcells[name]
+				elemT := x.Type().Underlying().(*types.Pointer).Elem()
+				at, isArr := elemT.Underlying().(*types.Array)
+				if isArr && (at.Len() > 4096 || allocKind(at.Elem()) != "") {
+					isArr = false
+				}
 				if !ok {
 					id = e.newID()
-					elemT := x.Type().Underlying().(*types.Pointer).Elem()
-					st.heap[id] = &hArray{elems: []sVal{e.zeroOf(elemT)}}
+					if isArr {
+						// an array variable is the array object itself
+						arr := &hArray{elems: make([]sVal, at.Len())}
+						for i := range arr.elems {
+							arr.elems[i] = e.zeroOf(at.Elem())
+						}
+						st.heap[id] = arr
+					} else {
+						st.heap[id] = &hArray{elems: []sVal{e.zeroOf(elemT)}}
+					}
 					st.gcells[name] = id
+				}
+				if isArr {
+					return sPtr{id, -1}
 				}
 				return sPtr{id, 0}
 			}
